@@ -5,7 +5,7 @@ TARGETS = ['pytezos.crypto.hash._hash_tuple', 'pytezos.crypto.hash._reduce_opera
            'pytezos.crypto.hash.operation_list_list_hash', 'pytezos.crypto.hash.block_payload_hash']
 STUBS = ['blake2b(x, digest_size=32).digest() -> uninterpreted function H(x); byte concatenation -> uninterpreted cat(x, y) with cat(x, empty) = x',
          'base58_decode/base58_encode in crypto.hash -> tagged identity (kind prefix recorded)']
-BOUNDS = {'quick': 'list lengths 0..17, every leaf a free constant (all hash values); lists of lists with every inner length <= 3 and outer length <= 5',
+BOUNDS = {'quick': 'list lengths 0..17, every leaf a free constant (all hash values); lists of 2..5 hashes with repeated entries (every pattern over two hashes); lists of lists with every inner length <= 3 and outer length <= 5',
           'thorough': 'list lengths 0..65; lists of lists with inner length <= 4 and outer length <= 6'}
 OUTSIDE = ['Blake2b itself, Base58Check (C09)', 'lengths beyond the bound']
 ASSUMPTIONS = ['reference root: leaves H(x_i), padded to the next power of two with copies of the last leaf, node = H(left || right), empty list -> H(empty), single x -> H(x)']
@@ -89,6 +89,13 @@ class Text:
 
     def decode(self):
         return self
+
+    # two texts of the same hash are the same string
+    def __eq__(self, o):
+        return isinstance(o, Text) and self.prefix == o.prefix and self.raw.e.eq(o.raw.e)
+
+    def __hash__(self):
+        return hash((self.prefix, self.raw.e.hash()))
 
 
 def fake_b58decode(x):
@@ -180,6 +187,58 @@ def sym_list(P, ctx):
         ctx.unsat(f'block_payload_hash, {n} hashes', ph.raw.e != exp, {}, validate=lambda w, n=n: not conc_list({'fn': 'payload'}, {'n': n})['ok'])
 
 
+def sym_repeats(P, ctx):
+    """Lists in which the same hash occurs several times (every pattern over a pool of 2 distinct hashes)."""
+    import itertools
+
+    M = load()
+    pool = _leaves('p', 2)
+    pred, rnd = _leaves('pred', 1)[0], _leaves('round', 1)[0]
+    for n in range(2, P['n'] + 1):
+        for pat in itertools.product((0, 1), repeat=n):
+            if pat[0] != 0 or len(set(pat)) == n:
+                continue
+            xs = [pool[i] for i in pat]
+            name = ''.join('ab'[i] for i in pat)
+            got = M.operation_list_hash([Text(x, b'o') for x in xs])
+            ctx.unsat(f'operation_list_hash, pattern {name}', got.raw.e != _sym_ref(xs), {}, validate=lambda w, pat=pat: not conc_repeats({'fn': 'list'}, {'pattern': list(pat)})['ok'])
+            ph = M.block_payload_hash(Text(pred, b'B'), Round(rnd), [Text(x, b'o') for x in xs])
+            exp = _H(_cat(_cat(pred.e, rnd.e), _sym_ref(xs)))
+            ctx.unsat(f'block_payload_hash, pattern {name}', ph.raw.e != exp, {}, validate=lambda w, pat=pat: not conc_repeats({'fn': 'payload'}, {'pattern': list(pat)})['ok'])
+            got2 = M.operation_list_list_hash([[Text(x, b'o') for x in xs], [Text(x, b'o') for x in xs]])
+            exp2 = _sym_ref([Term(_sym_ref(xs)), Term(_sym_ref(xs))])
+            ctx.unsat(f'operation_list_list_hash, twice pattern {name}', got2.raw.e != exp2, {}, validate=lambda w, pat=pat: not conc_repeats({'fn': 'll'}, {'pattern': list(pat)})['ok'])
+
+
+def conc_repeats(P, w):
+    from hashlib import blake2b
+
+    from pytezos.crypto import hash as Hm
+    from pytezos.crypto.encoding import base58_decode, base58_encode
+
+    pat = w.get('pattern')
+    fn = w.get('fn') or P.get('fn')
+    if pat is None:
+        import re
+
+        q = w['query']
+        pat = [0 if c == 'a' else 1 for c in re.search(r'pattern ([ab]+)', q).group(1)]
+        fn = 'payload' if 'payload' in q else ('ll' if 'list_list' in q else 'list')
+    pool = _mk_leaves(2, 5)
+    xs = [pool[i] for i in pat]
+    texts = [base58_encode(x, b'o').decode() for x in xs]
+    if fn == 'list':
+        got, exp = base58_decode(Hm.operation_list_hash(texts).encode()), _real_ref(xs)
+    elif fn == 'payload':
+        pred = _mk_leaves(1, 9)[0]
+        got = base58_decode(Hm.block_payload_hash(base58_encode(pred, b'B').decode(), 7, texts).encode())
+        exp = blake2b(pred + (7).to_bytes(4, 'big') + _real_ref(xs), digest_size=32).digest()
+    else:
+        got = base58_decode(Hm.operation_list_list_hash([texts, texts]).encode())
+        exp = _real_ref([_real_ref(xs), _real_ref(xs)])
+    return {'ok': got == exp, 'pattern': pat, 'fn': fn, 'observed': got.hex(), 'expected': exp.hex()}
+
+
 def _shape_vars(shape):
     return [_leaves(f'y{i}_', k) for i, k in enumerate(shape)]
 
@@ -268,4 +327,6 @@ def obligations(tier):
                       timeout=120 if q else 900, bounds='every list length in the range, all leaves free', targets=TARGETS))
     obs.append(Ob('list-of-lists', 'smt', sym_list_list, conc_list_list, {'outer': 5 if q else 6, 'inner': 3 if q else 4}, timeout=300 if q else 1800,
                   bounds='outer/inner lengths as stated, all leaves free', targets=TARGETS))
+    obs.append(Ob('repeated-hashes', 'smt', sym_repeats, conc_repeats, {'n': 5 if q else 7}, timeout=300 if q else 1800,
+                  bounds=f'lists of 2..{5 if q else 7} hashes drawn from a pool of two distinct hashes, every pattern with a repetition; also inside a list of lists', targets=TARGETS))
     return obs
